@@ -47,6 +47,13 @@ func c19Scenarios() []c19Scenario {
 			must(w, world.TxSpec{Msgs: []sdk.Msg{pnfttypes.NewMsgTransferRequest("d", e.A.Bech, e.W.Bech)}, Signers: s(e.A)})
 			must(w, world.TxSpec{Msgs: []sdk.Msg{aoltypes.NewMsgDeleteWriter("a", e.W.Bech, e.A.Bech)}, Signers: s(e.A)})
 		}},
+		{"same-topic-name-under-two-owners", func(e *domEnv, w *world.World) {
+			must(w, world.TxSpec{Msgs: []sdk.Msg{aoltypes.NewMsgCreateTopic("a", "", e.B.Bech)}, Signers: s(e.B)})
+			must(w, world.TxSpec{Msgs: []sdk.Msg{aoltypes.NewMsgAddWriter("a", "", "", e.W.Bech, e.B.Bech)}, Signers: s(e.B)})
+			must(w, world.TxSpec{Msgs: []sdk.Msg{aoltypes.NewMsgAddWriter("a", "", "", e.F.Bech, e.B.Bech)}, Signers: s(e.B)})
+			must(w, world.TxSpec{Msgs: []sdk.Msg{pnfttypes.NewMsgCreateDenomRequest("dd", "S", "n", "", "", "", e.B.Bech, "")}, Signers: s(e.B)})
+			must(w, world.TxSpec{Msgs: []sdk.Msg{pnfttypes.NewMsgMintPNFTRequest("dd", "t", "same token id in another denom", "", "", "", e.B.Bech, "")}, Signers: s(e.B)})
+		}},
 		{"many-records", func(e *domEnv, w *world.World) {
 			for i := 0; i < 5; i++ {
 				must(w, world.TxSpec{Msgs: []sdk.Msg{aoltypes.NewMsgAddRecordRequest("a", []byte{byte(i)}, []byte(strings.Repeat("v", i)), e.W.Bech, e.A.Bech, "")}, Signers: s(e.W)})
